@@ -148,6 +148,21 @@ pub mod sched_raw {
         pub fn reserve_all(&mut self, cands: &[RawCandidate]) -> Vec<bool> {
             cands.iter().map(|c| self.reserve(c)).collect()
         }
+
+        /// Switches the transaction id the following calls address (a scheduler may hold
+        /// several open transactions at once; each has its own queue and active set).
+        pub fn set_tx(&mut self, tx: u64) {
+            self.tx = TxId::from_raw(tx);
+        }
+
+        /// `finalize_tx` for the current transaction (what `Engine::commit`/`abort` call at
+        /// the end of a tick), so multi-tick sequences on ONE scheduler can be driven.
+        pub fn finalize(&mut self) {
+            match &mut self.inner {
+                Inner::Radix(s) => s.finalize_tx(self.tx),
+                Inner::Legacy(s) => s.finalize_tx(self.tx),
+            }
+        }
     }
 
     /// The receipt-side conflict predicate (`engine_impl::footprints_conflict`).
